@@ -750,9 +750,23 @@ def part_from_matchfile(
         if barline_in_divs < 0:
             barline_in_divs = 0
         if prev_measure is not None:
-            part.add(prev_measure, None, barline_in_divs)
+            # bars without any score note do not appear in the file: the
+            # previous measure ends after its notated length at the latest, and
+            # add_measures (below) fills the stretch up to this barline
+            prev_end_in_divs = min(barline_in_divs, prev_notated_end_in_divs)
+            if prev_end_in_divs <= prev_measure.start.t:
+                prev_end_in_divs = barline_in_divs
+            part.add(prev_measure, None, prev_end_in_divs)
         prev_measure = score.Measure(number=measure_counter + 1, name=str(measure_name))
         part.add(prev_measure, barline_in_divs)
+        prev_notated_end_in_divs = barline_in_divs + int(
+            round(
+                divs
+                * beats_map(barline_in_quarters)
+                * 4
+                / beat_type_map(barline_in_quarters)
+            )
+        )
     last_closing_barline = barline_in_divs + int(
         round(
             divs
